@@ -198,3 +198,119 @@ class G:
             prow.append(base)
         pn = name + "_par"
         return [self.mat_line(pn, pr, pc, prow), "win %s %s %d %d %d %d" % (name, pn, r0, c0, r0 + nr, c0 + nc)], [name, pn]
+
+
+# ------------------------------------------------------------------------------------------------
+# generators for the factorisation / solving properties (C03..C07).  Added as functions (not methods
+# drawing from G in a different order) so that the streams of the existing operations do not change.
+# ------------------------------------------------------------------------------------------------
+def junk_perm(g, length, hi=4000):
+    """arbitrary non-negative contents of P->values / Q->values on entry (not a permutation)"""
+    return [g.rng.randrange(hi) for _ in range(length)]
+
+
+def rank_profile_rows2(g, nr, nc, style=None):
+    """Matrix with prescribed pivot columns: gaps crossing word boundaries, all-zero column blocks of width
+    >= 7k (the 'no pivot in this block' branch of the Four-Russians base case), pivots only in the last
+    columns, rank 0 / low / full; the independent rows first, last, in the middle or anywhere."""
+    r = g.rng
+    style = style or r.choice(["rand", "rand", "left", "right", "gap64", "spread", "zeroblock", "zeroblock", "wordgap",
+                               "fullrank", "lowrank", "rank0", "lastcols"])
+    cols = list(range(nc))
+    allowed = cols
+    zb = None
+    if style == "zeroblock" and nc >= 20:
+        w = min(r.choice([14, 21, 28, 35, 42, 49, 56, 57, 64, 70, 100]), nc - 2)
+        a = max(0, min(r.choice([0, 64 - w // 2, r.randrange(nc - w + 1), nc - w]), nc - w))
+        zb = (a, a + w)
+        allowed = [c for c in cols if not (a <= c < a + w)]
+    elif style == "wordgap" and nc > 130:
+        lo, hi = 64 - r.randint(0, 3), 128 + r.randint(0, 3)
+        allowed = [c for c in cols if c < lo or c >= hi]
+    elif style == "gap64" and nc > 70:
+        hi = 64 + r.randint(0, 5)
+        allowed = [c for c in cols if c < 3 or c >= hi]
+    elif style == "lastcols":
+        allowed = cols[max(0, nc - r.randint(1, 9)):]
+    maxrk = min(nr, len(allowed))
+    if style == "fullrank":
+        rk = maxrk
+    elif style == "rank0":
+        rk = 0
+    elif style == "lowrank":
+        rk = min(maxrk, r.randint(1, 3))
+    else:
+        rk = r.randint(0, maxrk)
+    if style == "left":
+        piv = allowed[:rk]
+    elif style == "right":
+        piv = allowed[len(allowed) - rk:]
+    elif style == "spread":
+        step = max(1, len(allowed) // max(1, rk))
+        piv = allowed[::step][:rk]
+    else:
+        piv = sorted(r.sample(allowed, rk))
+    rk = len(piv)
+    full = (1 << nc) - 1
+    zmask = full
+    if zb:
+        zmask &= ~(((1 << (zb[1] - zb[0])) - 1) << zb[0])
+    if style in ("wordgap", "gap64", "lastcols") and r.random() < 0.5:
+        # the excluded columns hold no pivot because they are zero (otherwise: because they are dependent)
+        zmask = 0
+        for c in allowed:
+            zmask |= 1 << c
+    basis = []
+    for p in piv:
+        v = 1 << p
+        if r.random() < 0.85:
+            v |= (r.getrandbits(nc) >> (p + 1) << (p + 1)) & full
+        basis.append(v & zmask | (1 << p))
+    place = r.choice(["rand", "rand", "indep_first", "indep_last", "indep_mid"])
+    order = list(range(nr))
+    if place == "rand":
+        r.shuffle(order)
+    elif place == "indep_last":
+        order = order[nr - rk:] + order[:nr - rk]
+    elif place == "indep_mid":
+        s = (nr - rk) // 2
+        order = order[s:s + rk] + order[:s] + order[s + rk:]
+    out = [0] * nr
+    for idx, pos in enumerate(order):
+        if idx < rk:
+            v = basis[idx]
+            for j in range(idx):
+                if r.getrandbits(1):
+                    v ^= basis[j]
+        else:
+            v = 0
+            if r.random() < 0.7:
+                for b in basis:
+                    if r.getrandbits(1):
+                        v ^= b
+        out[pos] = v
+    return out, "rank%d/%s/%s" % (rk, style, place)
+
+
+def mat_mul_rows(a_rows, b_rows):
+    """rows of A*B over GF(2) (row i of A as an integer, column j = bit j)"""
+    out = []
+    for a in a_rows:
+        v, k = 0, 0
+        while a:
+            if a & 1:
+                v ^= b_rows[k]
+            a >>= 1
+            k += 1
+        out.append(v)
+    return out
+
+
+def tri_dim(g, sz):
+    """dimension of a triangular system: around 64 and around the regime thresholds below sz"""
+    r = g.rng
+    if r.random() < 0.5:
+        cand = [d for d in (1, 2, 31, 32, 33, 63, 64, 65, 66, 96, 127, 128, 129, 130, 191, 192, 193, 255, 256, 257, 258, 300,
+                            362, 363, 364, 384, 385, 448, 511, 512, 513, 600) if d <= sz]
+        return r.choice(cand)
+    return g.dim(sz)
